@@ -609,10 +609,12 @@ pub fn rand_config(rng: &mut Rng) -> (TransactionValidationConfig, &'static str)
                 2 => c.min_tip_percentage.saturating_sub(1),
                 _ => c.min_tip_percentage + rng.below(10) as u16,
             };
-            c.max_epoch_range = match rng.below(5) {
-                0 => 12 * 24 * 30,
-                1 => u64::MAX,
-                2 => 1,
+            c.max_epoch_range = match rng.below(25) {
+                0..=4 => 12 * 24 * 30,
+                // "unlimited": start + max overflows for every start > 0, everything is rejected
+                5 => u64::MAX,
+                6 => u64::MAX - 6000,
+                7..=11 => 1,
                 _ => 1 + rng.below(50),
             };
             c.max_instructions = pick_usize(rng, 12, &[1000, usize::MAX]);
@@ -1115,6 +1117,7 @@ fn apply(rng: &mut Rng, spec: &mut TxSpec, cfg: &TransactionValidationConfig, di
             it.min_ts = Some(t);
             it.max_ts = Some(t + value as i64);
         }
+        "payload" => {} // realised by `materialise_with_payload`
         "ts-overlap" => {
             if !spec.v2 || spec.subs.is_empty() {
                 return None;
@@ -1357,17 +1360,18 @@ pub fn run(args: &Args) -> i32 {
     .assume("max_total_signature_validations counts every intent signature plus one notary signature (none for a signed partial transaction)")
     .assume("max_total_references bounds the sum of the per-intent distinct reference counts")
     .assume("epoch windows whose start + max_epoch_range overflows u64 may be rejected although they are short (recorded, not verdict-bearing)")
-    .floor("accepted", args.tier.pick(15_000, 300_000))
-    .floor("boundary:cases", args.tier.pick(15_000, 300_000))
-    .floor("random:rejected_outside", args.tier.pick(3_000, 60_000))
-    .floor("window_checks_multi_intent", args.tier.pick(2_000, 40_000))
+    .floor("accepted", args.tier.pick(150_000, 3_000_000))
+    .floor("boundary:cases", args.tier.pick(300_000, 6_000_000))
+    .floor("random:rejected_outside", args.tier.pick(50_000, 1_000_000))
+    .floor("window_checks_multi_intent", args.tier.pick(40_000, 800_000))
+    .floor("dims_accepted_at_limit_and_rejected_above", 20)
     .explain("Configs: babylon, cuttlefish and random variations of every numeric field. Boundary mode sets one dimension to limit-1/limit/limit+1 on an otherwise comfortably valid V1 / V2 / signed-partial transaction; random mode perturbs 1-3 dimensions near or far beyond their limits.");
     if let Some(path) = &args.replay {
         return replay(args, spec, path);
     }
     let mut report = Report::new(args, spec);
     keys();
-    let cap = scaled(args, args.tier.pick(6_000, 400_000));
+    let cap = scaled(args, args.tier.pick(60_000, 1_500_000));
     report.run_shards(34_01, args.threads, Duration::from_secs(budget_secs(args.tier, 45, 600)), |_idx, rng, shard| {
         let mut done = 0;
         while done < cap && !shard.time_up() {
@@ -1381,6 +1385,10 @@ pub fn run(args: &Args) -> i32 {
                 let dim = *rng.pick(&dims);
                 let which = rng.usize_below(base.n_intents());
                 let Some(limit) = limit_of(dim, &cfg, &base) else { continue };
+                if dim == "payload" && limit > 20_000 && !rng.chance(1, 60) {
+                    // megabyte payloads cost ~1 s per triple: keep them, but rare
+                    continue;
+                }
                 // the three neighbours share the random content (same fork) so that only the
                 // dimension differs
                 let fork = rng.u64();
@@ -1448,6 +1456,12 @@ pub fn run(args: &Args) -> i32 {
             }
         }
     });
+    // dimensions whose limit was seen accepted and whose limit+1 was seen rejected (alone)
+    let both = match (report.sets.get("boundary_dims_accepted_at_limit"), report.sets.get("boundary_dims_rejected_above_limit")) {
+        (Some(a), Some(b)) => a.intersection(b).count() as u64,
+        _ => 0,
+    };
+    report.counters.insert("dims_accepted_at_limit_and_rejected_above".into(), both);
     report.finish()
 }
 
